@@ -205,8 +205,8 @@ def run(chk):
         fields = adt["variants"][0]["fields"]
         cleared = set()
         for bb, t in b.calls():
-            if re.search(r"::(clear|default|take|replace)$", b.callee(t).split("::<")[0]) or \
-                    re.search(r"std::mem::(take|replace|swap)(::<.*>)?$", b.callee(t)):
+            if b.callee(t).rsplit("::", 1)[-1] in ("clear", "default", "take", "replace") or \
+                    re.search(r"std::mem::(take|replace)(::<.*>)?$", b.callee(t)):
                 l = op_local(t["args"][0]) if t["args"] else None
                 if l is not None:
                     r = cfgq.ref_root(b, l)
